@@ -158,7 +158,8 @@ pub fn a_tok() -> Alphabet {
 /// Token alphabet with the additional byte widths and Unicode classes
 pub fn a_tok_wide() -> Alphabet {
     let mut v = a_tok().syms;
-    v.extend_from_slice(&["€", "😀", "\u{2009}", "⸫", "\t", "\u{a0}", "kg", "\r"]);
+    // (the last two: a byte order mark and a zero-width space, i.e. characters of display width 0)
+    v.extend_from_slice(&["€", "😀", "\u{2009}", "⸫", "\t", "\u{a0}", "kg", "\r", "\u{feff}", "\u{200b}"]);
     Alphabet::new("A_tok_wide", &v)
 }
 
